@@ -699,7 +699,7 @@ func c12Plan(tier string) (openings, configs, runs int64) {
 		}
 	}
 	if tier == "thorough" {
-		return int64(65536 * 64 * scale), int64(4_000_000 * scale), int64(200_000 * scale)
+		return int64(65536 * 64 * scale), int64(16_000_000 * scale), int64(1_000_000 * scale)
 	}
 	return int64(65536 * 4 * scale), int64(120_000 * scale), int64(6_000 * scale)
 }
